@@ -48,6 +48,21 @@ check("C17",
       "TLA+ spec (Sampling.tla) model-checked by TLC + scripted-generator replay of the model grid + TLC trace validation",
       "DESIGN.md C17")
 
+check("C01",
+      "TLC explores the lineage of one progeny through every code block of each of the seven mating protocols (first "
+      "hybridisation from the configured columns, second hybridisation / backcross, selfing generations, doubled "
+      "haploid) with crossover masks chosen nondeterministically within the crossover-probability classes, for all "
+      "parent tuples, all class vectors over 3 loci, selfing depth 0..1, and checks the provenance relation (each copy a "
+      "mosaic of the designated sources, source changes only where a crossover is possible, DH homozygous) plus the "
+      "numpy.repeat index-expansion laws; every real mate() call on provenance-tagged parents (700/2800 random "
+      "configurations over all seven protocols: selfs, repeated parents, scalar and per-cross array counts, nself 0..3, "
+      "exact 0/0.5/1 probabilities, Generator and RandomState, non-zero counters) is validated by TLC against the "
+      "relation, the progeny count/order/names/family labels/counters, parent immutability and marker metadata.",
+      "Parents carry provenance tags (2i+h); the starting copy of a gamete is left free (C02 decides distribution); "
+      "crossover probabilities abstracted to classes {=0, in (0,1), >=1}.",
+      "TLA+ spec (Mating.tla) model-checked by TLC + TLC validation of recorded mate() executions",
+      "DESIGN.md C01")
+
 def build():
     checks = []
     for pid in sorted(CHECKS):
